@@ -1056,6 +1056,9 @@ pub struct GenCfg {
     pub long: usize,
     /// estimated microseconds of work allowed per long scenario
     pub long_budget_us: u64,
+    /// leave out the big sizes (MSM with up to 4099 terms, batches of 1030 points, 70 kB messages):
+    /// for the slowest instrumented build
+    pub no_big: bool,
     pub focus: String,
     pub max_window: usize,
     pub min_window: usize,
@@ -1106,7 +1109,7 @@ const FAMS: &[Fam] = &[
     Fam { name: "h2f", cost: 30, gen: |r, _| Op::new("h2f", &[r.below(4), r.below(2), r.below(8), r.below(6), r.below(3), r.below(2)]) },
     Fam { name: "arith", cost: 10, gen: |r, _| gop("arith", &[r.below(12), r.below(12)], r) },
     Fam { name: "mul", cost: 300, gen: |r, _| gop(["mul", "amul", "ymul"][r.below(3)], &[r.below(12), rk(r)], r) },
-    Fam { name: "affine", cost: 30, gen: |r, _| if r.chance(1, 2) { gop("affine", &[r.below(12)], r) } else { gop("batchnorm", &[r.below(12), if r.chance(1, 8) { 6 + r.below(5) } else { r.below(6) }], r) } },
+    Fam { name: "affine", cost: 30, gen: |r, c| if r.chance(1, 2) { gop("affine", &[r.below(12)], r) } else { gop("batchnorm", &[r.below(12), if !c.no_big && r.chance(1, 8) { 6 + r.below(5) } else { r.below(6) }], r) } },
     Fam { name: "random", cost: 400, gen: |r, _| gop("random", &[r.below(50)], r) },
     Fam { name: "wnaf_bs", cost: 350, gen: |r, c| gop("wnaf_bs", &[ctxsel(r, c), r.below(10), r.below(if c.focus == "wnaf" { 14 } else { 9 }), rk(r)], r) },
     Fam { name: "wnaf_sb", cost: 350, gen: |r, c| gop("wnaf_sb", &[ctxsel(r, c), rk(r), r.below(10)], r) },
@@ -1131,8 +1134,8 @@ const FAMS: &[Fam] = &[
         name: "msm",
         cost: 1500,
         gen: |r, c| match r.below(3) {
-            0 => gop("sop", &[if r.chance(1, 8) { 7 + r.below(11) } else { r.below(7) }, r.below(6), r.below(nsc())], r),
-            1 => gop("pip", &[if r.chance(1, 12) { 7 + r.below(11) } else { r.below(7) }, r.below(6), r.below(nsc()), r.below(9)], r),
+            0 => gop("sop", &[if !c.no_big && r.chance(1, 8) { 7 + r.below(11) } else { r.below(7) }, r.below(6), r.below(nsc())], r),
+            1 => gop("pip", &[if !c.no_big && r.chance(1, 12) { 7 + r.below(11) } else { r.below(7) }, r.below(6), r.below(nsc()), r.below(9)], r),
             _ => {
                 if c.with_256 {
                     gop("sop256", &[r.below(2), r.below(nsc())], r)
